@@ -1,5 +1,6 @@
 (* C06 - Mech (the machine of the repaired code with its name-keyed destructor bookkeeping, Model.v)
-   refines Spec for ALL programs in which no function body re-declares a live name (wf_prog); every
+   refines Spec for ALL programs in which no function body re-declares a live name (wf_prog; objects with
+   a destructible member included since a registration resets destructor_called); every
    statement and every call restores both stacks and the variable scopes below its own level. *)
 From Coq Require Import List Arith Bool Lia.
 Import ListNotations.
@@ -79,6 +80,29 @@ Proof.
   - inversion ND; subst. constructor.
     + intro H. apply in_app_or in H. destruct H as [H|[H|[]]]; [contradiction|]. subst. apply NI. now left.
     + apply IH; auto. intro; apply NI; now right.
+Qed.
+
+Lemma NoDup_app_disj : forall (l l' : list name), NoDup l -> NoDup l' ->
+  (forall y, In y l' -> ~ In y l) -> NoDup (l ++ l').
+Proof.
+  induction l as [|a l IH]; intros l' H H' D; simpl; auto.
+  inversion H; subst. constructor.
+  - intro I. apply in_app_or in I. destruct I as [I|I]; [contradiction|]. apply (D a I). now left.
+  - apply IH; auto. intros y Hy I. apply (D y Hy). now right.
+Qed.
+
+(* what one declaration adds to the innermost level: its entries name the fresh slots, which hold the
+   identities of the sub-objects; every other name keeps its slot *)
+Lemma obj_level : forall x t id F,
+  lvl_ok (obj_slots F x t id) (obj_entries x t) (obj_parts t id) /\
+  NoDup (names (obj_entries x t)) /\
+  (forall y, ~ In y (names (obj_entries x t)) -> lookup (obj_slots F x t id) y = lookup F y).
+Proof.
+  intros x t id F. split; [|split].
+  - destruct t; simpl; repeat constructor; simpl; rewrite ?Nat.eqb_refl; reflexivity.
+  - destruct t; simpl; repeat constructor; simpl; intuition discriminate.
+  - intros y Hy. destruct t; simpl in Hy |- *;
+      repeat (rewrite name_eqb_neq by (intro; subst; apply Hy; simpl; tauto)); reflexivity.
 Qed.
 
 Lemma wf_body : forall p g, wf_prog p = true -> wf_b [] [] (body p g) = true.
@@ -176,29 +200,27 @@ Proof.
         - intros _. exists Tm, F'. rewrite app_nil_r. repeat split; auto. }
       destruct s; simpl.
       * (* SObj *)
-        simpl in W. apply andb_true_iff in W. destruct W as [W1 W2].
-        apply negb_true_iff in W1. apply mem_name_false in W1.
+        simpl in W. rewrite forallb_forall in W.
+        assert (WN : forall y, In y (names (obj_entries x t)) -> ~ In y (names Tm ++ N0)).
+        { intros y Hy. apply mem_name_false. apply negb_true_iff. now apply W. }
         rewrite declare_obj_cc.
-        assert (ET : obj_entries x t = [(NVar x, t)]) by (destruct t; try reflexivity; discriminate).
-        assert (EP : obj_parts t (oid n k) = [(t, oid n k)]) by (destruct t; try reflexivity; discriminate).
-        assert (ES : obj_slots F x t (oid n k) = (NVar x, (oid n k, false)) :: F) by (destruct t; try reflexivity; discriminate).
-        rewrite ET, EP, ES.
-        assert (NI : ~ In (NVar x) (names Tm)) by (intro; apply W1; apply in_or_app; now left).
-        assert (NJ : ~ In (NVar x) N0) by (intro; apply W1; apply in_or_app; now right).
-        set (Tm' := Tm ++ [(NVar x, t)]). set (F' := (NVar x, (oid n k, false)) :: F).
-        assert (K : names Tm' = names Tm ++ [NVar x] /\
-                   NoDup (names Tm') /\ disj (names Tm') N0 /\ lvl_ok F' Tm' (T ++ [(t, oid n k)]) /\ agree N0 F F').
-        { subst Tm' F'. rewrite names_app; simpl.
+        destruct (obj_level x t (oid n k) F) as (OE & NE & LE).
+        set (Tm' := Tm ++ obj_entries x t). set (F' := obj_slots F x t (oid n k)).
+        assert (K : names Tm' = names Tm ++ names (obj_entries x t) /\
+                   NoDup (names Tm') /\ disj (names Tm') N0 /\
+                   lvl_ok F' Tm' (T ++ obj_parts t (oid n k)) /\ agree N0 F F').
+        { subst Tm' F'. rewrite names_app.
           split; [reflexivity|]. split; [|split; [|split]].
-          - apply NoDup_app_cons_end; auto.
-          - intros y Hy. apply in_app_or in Hy. destruct Hy as [Hy|[<-|[]]]; auto.
-          - apply Forall2_app.
-            + eapply lvl_ok_change; [exact OK|]. intros y Hy. apply lookup_cons_other. intro; subst; contradiction.
-            + constructor; [|constructor]. split; [reflexivity|]. cbn [fst snd]. apply lookup_cons_same.
-          - intros y Hy. apply lookup_cons_other. intro; subst; contradiction. }
+          - apply NoDup_app_disj; auto. intros y Hy I. apply (WN y Hy). apply in_or_app; now left.
+          - intros y Hy. apply in_app_or in Hy. destruct Hy as [Hy|Hy]; auto.
+            intro I. apply (WN y Hy). apply in_or_app; now right.
+          - apply Forall2_app; [|exact OE].
+            eapply lvl_ok_change; [exact OK|]. intros y Hy. apply LE.
+            intro I. apply (WN y I). apply in_or_app; now left.
+          - intros y Hy. apply LE. intro I. apply (WN y I). apply in_or_app; now right. }
         eexists; split; [reflexivity|]. split.
         -- left. exists Tm', F'. split; [reflexivity|]. tauto.
-        -- intros _. exists Tm', F'. split; [reflexivity|]. simpl. exact K.
+        -- intros _. exists Tm', F'. split; [reflexivity|]. exact K.
       * (* SDefer *)
         rewrite defer_stmt_cc.
         eexists; split; [reflexivity|]. simpl.
